@@ -384,75 +384,37 @@ Proof.
   now apply N.eqb_eq.
 Qed.
 
-Definition kf_hit (c : case) (S : qset) (o : gop) : bool :=
-  match o with
-  | GISub g h => Bool.eqb (h_store g) (h_store h) && store_simple c (h_store g)
-                 && negb (is_nil (sp_content S (scid c h)))
-  | _ => false
-  end.
-
-Lemma kf_run_cons c S o pr r :
-  kf_run c S ((o, pr) :: r) = 0%N -> kf_hit c S o = false /\ kf_run c (spec_step c S o) r = 0%N.
-Proof.
-  cbn [kf_run]. change (match o with
-                        | GISub g h => Bool.eqb (h_store g) (h_store h) && store_simple c (h_store g)
-                                       && negb (is_nil (sp_content S (scid c h)))
-                        | _ => false end) with (kf_hit c S o).
-  destruct (kf_hit c S o); [discriminate|auto].
-Qed.
-
 Lemma Rel_isub c w S g h :
-  Rel c w S -> kf_hit c S (GISub g h) = false ->
-  Rel c (fst (g_isub w g h)) (sp_remove_all (scid c g) (sp_content S (scid c h)) S)
-  /\ snd (g_isub w g h) = false.
-Proof.
-  intros HR Hkf. unfold g_isub. pose proof HR as (_ & _ & Hsimple & _). rewrite Hsimple.
-  cbn [kf_hit] in Hkf.
-  destruct (Bool.eqb (h_store g) (h_store h) && store_simple c (h_store g)) eqn:Ec; cbn [andb] in Hkf.
-  - apply negb_false_iff in Hkf.
-    assert (E0 : sp_content S (scid c h) = []) by (destruct (sp_content S (scid c h)); [auto|discriminate]).
-    assert (E1 : g_triples w h all_pat = []).
-    { apply nil_of_noin. intros k Hk. apply (g_triples_all h k HR) in Hk. now rewrite E0 in Hk. }
-    rewrite E1, E0. cbn. auto.
-  - cbn [fst snd]. split; [now apply Rel_isub_fold|auto].
-Qed.
+  Rel c w S -> Rel c (g_isub w g h) (sp_remove_all (scid c g) (sp_content S (scid c h)) S).
+Proof. apply Rel_isub_fold. Qed.
 
 Lemma g_step_ok c w S o :
-  tok_ok c -> incl (op_handles o) (case_handles c) -> Rel c w S -> kf_hit c S o = false ->
+  tok_ok c -> incl (op_handles o) (case_handles c) -> Rel c w S ->
   Rel c (fst (fst (g_step w o))) (spec_step c S o) /\ snd (fst (g_step w o)) = false /\
   match o with
   | GBin b g h => enum_of (snd (g_step w o)) (spec_bin b (sp_content S (scid c g)) (sp_content S (scid c h)))
   | _ => snd (g_step w o) = []
   end.
 Proof.
-  intros Htok Hinc HR Hkf. destruct o as [g t|g qs|g p|g t|g h|g h|b g h]; cbn [g_step fst snd spec_step].
+  intros Htok Hinc HR. destruct o as [g t|g qs|g p|g t|g h|g h|b g h]; cbn [g_step fst snd spec_step].
   - split; [now apply Rel_g_add|auto].
   - split; [|auto]. apply Rel_addN; auto. intros q Hq E. apply Htok; auto; apply Hinc; simpl; auto.
     right. now apply in_map.
   - split; [now apply Rel_g_remove|auto].
   - split; [|auto]. unfold g_set. now apply Rel_g_add, Rel_g_remove.
   - split; [now apply Rel_iadd|auto].
-  - unfold g_isub. pose proof HR as (_ & _ & Hsimple & _). rewrite Hsimple.
-    cbn [kf_hit] in Hkf.
-    destruct (Bool.eqb (h_store g) (h_store h) && store_simple c (h_store g)) eqn:Ec; cbn [andb] in Hkf.
-    + apply negb_false_iff in Hkf.
-      assert (E0 : sp_content S (scid c h) = []) by (destruct (sp_content S (scid c h)); [auto|discriminate]).
-      assert (E1 : g_triples w h all_pat = []).
-      { apply nil_of_noin. intros k Hk. apply (g_triples_all h k HR) in Hk. now rewrite E0 in Hk. }
-      rewrite E1, E0. cbn. auto.
-    + cbn [fst snd]. split; [now apply Rel_isub_fold|auto].
+  - split; [now apply Rel_isub|auto].
   - split; [exact HR|split; auto]. now apply g_bin_ok.
 Qed.
 
 Theorem spec_run_model c : tok_ok c -> forall ops w S,
   incl (flat_map (fun ot => op_handles (fst ot)) ops) (case_handles c) ->
-  Rel c w S -> kf_run c S ops = 0%N ->
+  Rel c w S ->
   spec_run c S ops (g_run (c_handles c) w ops) = true.
 Proof.
-  intros Htok. induction ops as [|[o probe] r IH]; intros w S Hinc HR Hkf; [reflexivity|].
-  apply kf_run_cons in Hkf. destruct Hkf as [Hk1 Hk2].
+  intros Htok. induction ops as [|[o probe] r IH]; intros w S Hinc HR; [reflexivity|].
   cbn [flat_map fst] in Hinc. apply incl_app_inv in Hinc. destruct Hinc as [Hi1 Hi2].
-  destruct (g_step_ok c w S o Htok Hi1 HR Hk1) as (R1 & R2 & R3).
+  destruct (g_step_ok c w S o Htok Hi1 HR) as (R1 & R2 & R3).
   cbn [g_run]. destruct (g_step w o) as [[w' raised] res] eqn:E. cbn [fst snd] in R1, R2, R3.
   cbn [spec_run]. apply andb_true_iff. split; [|now apply IH].
   unfold sobs_ok. rewrite !andb_true_iff. split; [split|].
@@ -461,11 +423,10 @@ Proof.
   - rewrite all2_map. apply forallb_forall. intros g _. now apply observe_ok.
 Qed.
 
-(* the checker that judges the implementation accepts the model on every
-   well-formed case outside the known finding *)
-Theorem spec_ok_model c : wfb c = true -> kf c = 0%N -> spec_ok c (model_obs c) = true.
+(* the checker that judges the implementation accepts the model on every well-formed case *)
+Theorem spec_ok_model c : wfb c = true -> spec_ok c (model_obs c) = true.
 Proof.
-  intros Hwf Hkf. unfold spec_ok, model_obs. apply spec_run_model; auto.
+  intros Hwf. unfold spec_ok, model_obs. apply spec_run_model; auto.
   - now apply wfb_tok_ok.
   - unfold case_handles. apply incl_appr, incl_refl.
   - apply Rel_init.
@@ -479,23 +440,22 @@ Fixpoint s_run (c : case) (S : qset) (ops : list (gop * triple)) : qset :=
 
 Theorem history_refines c : tok_ok c -> forall ops w S,
   incl (flat_map (fun ot => op_handles (fst ot)) ops) (case_handles c) ->
-  Rel c w S -> kf_run c S ops = 0%N -> Rel c (w_run w ops) (s_run c S ops).
+  Rel c w S -> Rel c (w_run w ops) (s_run c S ops).
 Proof.
-  intros Htok. induction ops as [|[o probe] r IH]; intros w S Hinc HR Hkf; [exact HR|].
-  apply kf_run_cons in Hkf. destruct Hkf as [Hk1 Hk2].
+  intros Htok. induction ops as [|[o probe] r IH]; intros w S Hinc HR; [exact HR|].
   cbn [flat_map fst] in Hinc. apply incl_app_inv in Hinc. destruct Hinc as [Hi1 Hi2].
-  destruct (g_step_ok c w S o Htok Hi1 HR Hk1) as (R1 & _). cbn [w_run s_run]. now apply IH.
+  destruct (g_step_ok c w S o Htok Hi1 HR) as (R1 & _). cbn [w_run s_run]. now apply IH.
 Qed.
 
 (* after any history every graph of every store is exactly the set the
    mathematical history prescribes, under every pattern *)
 Theorem history_exact c ops :
-  wfb c = true -> c_ops c = ops -> kf c = 0%N ->
+  wfb c = true -> c_ops c = ops ->
   forall g p,
     enum_of (g_triples (w_run (w_init c) ops) g p)
             (filter (matches p) (sp_content (s_run c [] ops) (scid c g))).
 Proof.
-  intros Hwf <- Hkf g p. apply g_triples_enum.
+  intros Hwf <- g p. apply g_triples_enum.
   apply history_refines; auto.
   - now apply wfb_tok_ok.
   - unfold case_handles. apply incl_appr, incl_refl.
@@ -564,18 +524,18 @@ Proof.
   - now rewrite tsunion_In, !tsdiff_In.
 Qed.
 
-(* the finding F10b as the faithful model shows it *)
+(* the corpus witness of the former finding F10b: `g -= g` on a SimpleMemory store *)
 Definition f10b_witness : case :=
   {| c_simple0 := true; c_simple1 := true; c_handles := [(false, 1, 1)%N];
      c_ops := [(GAdd (false, 1, 1)%N (1, 3, 5)%N, (1, 3, 5)%N);
                (GAdd (false, 1, 1)%N (2, 3, 5)%N, (1, 3, 5)%N);
                (GISub (false, 1, 1)%N (false, 1, 1)%N, (1, 3, 5)%N)] |}.
 
-Lemma simple_isub_alias_refuted :
-  exists c, wfb c = true /\ kf c = 1%N /\ spec_ok c (model_obs c) = false
-            /\ last (model_obs c) (false, [], []) =
-               (true, [], [([(2, 3, 5)], 1, [[(2, 3, 5)]; []; [(2, 3, 5)]; [(2, 3, 5)]; []; []; [(2, 3, 5)]; []],
-                             [true; false; true; true; false; false; true; false])])%N.
-Proof.
-  exists f10b_witness. split; [reflexivity|split; [reflexivity|split; vm_compute; reflexivity]].
-Qed.
+(* historical behaviour (before the repair): the step after the first removal raised
+   and one triple only was removed; the repaired model empties the graph *)
+Lemma hist_simple_isub_alias_refuted :
+  let g := (false, 1, 1)%N in
+  let w := g_add (g_add (w_init f10b_witness) g (1, 3, 5)%N) g (2, 3, 5)%N in
+  snd (g_isub_hist w g g) = true /\ g_triples (fst (g_isub_hist w g g)) g all_pat = [(2, 3, 5)%N]
+  /\ g_triples (g_isub w g g) g all_pat = [].
+Proof. vm_compute. auto. Qed.
